@@ -137,6 +137,17 @@ Definition solve_call_unrepaired bcs dz nAll minc (steps : list stepdesc) (s : m
 Definition solve_calls bcs dz nAll minc (calls : list (list stepdesc)) (s : mstate) : mstate :=
   fold_left (fun st c => solve_call bcs dz nAll minc c st) calls s.
 
+(* consecutive solve calls between which the user edits the boundary conditions (setBC /
+   setBoundaryCondition) and the constraints (constraints.minComposition): every call has its own
+   boundary-condition table and its own clip limits, both read live by the code; setup ran before the
+   first call and does nothing afterwards *)
+Record callenv := mkcall { c_bcs : list bc; c_minc : t; c_steps : list stepdesc }.
+Definition run_call (dz : t) (c : callenv) (x : mat) : mat := run (c_bcs c) dz (c_minc c) (c_steps c) x.
+Fixpoint run_calls (dz : t) (cs : list callenv) (x : mat) : mat :=
+  match cs with [] => x | c :: r => run_calls dz r (run_call dz c x) end.
+Definition solve_calls_env (dz : t) (nAll : Z) (c0 : callenv) (cs : list callenv) (s : mstate) : mat :=
+  run_calls dz (c0 :: cs) (xs (setup (c_bcs c0) nAll (c_minc c0) s)).
+
 (* ---- SinglePhaseModel._getFluxes: interior fluxes from per-node interdiffusivities ----------- *)
 (* binary: d (N,), dmid = (d[1:] + d[:-1])/2, dxdz = (x[1:] - x[:-1])/dz, flux = -dmid * dxdz *)
 Fixpoint mid2 (l : vec) : vec :=
